@@ -1181,6 +1181,23 @@ PROFILES = {
         "approx_ops_allowed": APPROX_CORE_OPS,
         "approx_simple_constraints": True,
     },
+    "C10approx": {   # truth claims of the approximate frontends, relative to their own constraints and across branches
+        "frontends": [("SolverHybrid", 5), ("SolverVSA", 2), ("SolverReplacementVSA", 2)],
+        "kw_for": {"SolverHybrid": [{}, {}, {"approximate_first": True}]},
+        "hybrid_exact": [False, False, None],
+        "all_approx": True,
+        "approx_ops_allowed": APPROX_CORE_OPS,
+        "ops_allowed": APPROX_CORE_OPS,
+        "approx_simple_constraints": True,
+        "initial_handles": (1, 3),
+        "length": (5, 30),
+        "weights": {"is_true": 18, "is_false": 18, "add": 24, "branch": 10, "g_truth": 6, "eval": 3, "min": 2, "max": 2,
+                    "solution": 1, "batch_eval": 1, "probe": 3, "sat": 3, "new": 2, "simplify": 1, "forget": 2},
+        "never_swarm_out": ("is_true", "is_false", "branch"),
+        "extra_pct": 15,
+        "echo_pct": 35,
+        "truth_template_pct": 25,
+    },
     "C17": {
         "frontends": [("Solver", 4), ("SolverCacheless", 4), ("SolverComposite", 3), ("SolverHybrid", 2), ("SolverReplacement", 2),
                       ("SolverStrings", 1)],
